@@ -37,7 +37,7 @@ REQUIRED_MONITORS = ["ref-derivative", "mapped-grad", "mapped-div", "mapped-curl
                      "layouts-agree"]
 REQUIRED_REACH = ["complex-step", "central-difference", "negative-det-cell", "per-cell-layout", "subset-tind",
                   "non-affine-cell", "higher-derivative-chain", "unsorted-triangle-cells",
-                  "global-nodal-on-general-quadrilateral"]
+                  "global-nodal-on-general-quadrilateral", "points-updated-in-place"]
 
 FD = ((1, 4 / 5), (2, -1 / 5), (3, 4 / 105), (4, -1 / 280))
 
@@ -134,6 +134,20 @@ def ref_derivatives(ctx, k):
                   mech=f"ref-derivative:{rec.name.split('(')[0]}", elem=rec.name, i=i, method=method)
         if np.abs(ref).max() > 0:
             ctx.nontrivial(rec.name, "ref", rec.family, method)
+    # a lattice walked by updating one point array in place, on one element object ("at every point"): values and
+    # derivatives follow the points
+    e2 = rec.make()
+    Y = X.copy()
+    for step in range(3):
+        i = int(rng.integers(N))
+        m = step % d
+        Y[m] += 0.0625 * (1 if step % 2 == 0 else -1)
+        got = e2.lbasis(Y, i)
+        want = rec.make().lbasis(Y.copy(), i)
+        ok = all(np.allclose(np.asarray(g), np.asarray(w), rtol=1e-12, atol=1e-13) for g, w in zip(got, want))
+        ctx.check("ref-derivative", ok, mech=f"lbasis-ignores-in-place-update-of-the-points:{rec.name.split('(')[0]}",
+                  elem=rec.name, i=i, step=step)
+    ctx.reached("points-updated-in-place")
     ctx.sample({"elem": rec.name, "check": "reference-derivatives", "Nbfun": N, "points": X.shape[1]}, per_family=2)
 
 
